@@ -674,7 +674,9 @@ Record wu_result := mkWu {
   wu_dels : option (list string);
   wu_tombstone : bool;
   wu_expiry : option N;
-  wu_spec : list macro
+  wu_spec : list macro;
+  wu_preserve : bool       (* not part of the callback's answer: the PreserveExpiry option of the call, which the
+                              write it dispatches to receives *)
 }.
 
 Inductive wu_cb := WUFail | WUResult (u : wu_result).
@@ -692,8 +694,8 @@ Definition do_writeupdatewithxattrs (ctx : kctx) (cb : wu_cb) (ms : list macro) 
         do_writetombstonewithxattrs ctx exp prev_cas (wu_xattrs u) (wu_dels u) (is_some prev_body) ms' r
       else if prev_tomb then
         if match wu_dels u with Some (_ :: _) => true | _ => false end then kfail 0 EDeleteXattrOnTombstone r
-        else do_writeresurrectionwithxattrs ctx exp (wu_doc u) (wu_xattrs u) false ms' r
-      else do_writewithxattrs ctx exp prev_cas (wu_doc u) (wu_xattrs u) (wu_dels u) false ms' r
+        else do_writeresurrectionwithxattrs ctx exp (wu_doc u) (wu_xattrs u) (wu_preserve u) ms' r
+      else do_writewithxattrs ctx exp prev_cas (wu_doc u) (wu_xattrs u) (wu_dels u) (wu_preserve u) ms' r
   end.
 
 (* ------------------------------------------------------------------------------------------ *)
